@@ -54,6 +54,13 @@ def cases(tier):
                     a = {n: DIMS[n][0] for n in DIMS}
                     a.update(method=meth, M=M, grid=g, rhs=rhs, **ex)
                     add(a, ["method", "M", "grid", "rhs"] + list(ex))
+    # histories: the horizon is changed after a first transcription in which refined samples were already taken
+    for meth, ex in schemes:
+        for M in (1, 2):
+            for g in ("uniform", "geom"):
+                a = {n: DIMS[n][0] for n in DIMS}
+                a.update(method=meth, M=M, grid=g, rhs="nl_t", **ex)
+                out.append(dict(kind="hist", d=finish(a), T2=2.7, t02=0.2, dev=["hist", "method", "M", "grid"] + list(ex)))
     return out
 
 
@@ -96,7 +103,60 @@ def exact_solution(d, x0, t0, t):
     return None
 
 
+def run_hist(case):
+    """read-back after an edit: refined samples and the sampler of an Ocp whose horizon was changed after a first
+    transcription (in which the same refined sample was already taken) equal those of a fresh Ocp"""
+    import casadi as ca, sys, copy
+    d = case["d"]
+    tags = _trans.tags_of(d) + ["hist"]
+    vios = []
+    try:
+        r = P.declare(d)
+        x = ca.vec(r.sym["x"])
+        NL.Nlp(r.ocp)
+        for rr in (1, 3):
+            r.st.sample(x, grid="integrator", refine=rr)       # fills whatever the implementation caches
+        r.st.sampler(x)
+        r.st.set_T(case["T2"]); r.st.set_t0(case["t02"])
+        d2 = copy.deepcopy(d); d2["TT"] = case["T2"]; d2["T0"] = case["t02"]
+        rf = P.declare(d2)
+        xf = ca.vec(rf.sym["x"])
+        outs = []
+        for rr_, sym, st in ((r, x, r.st), (rf, xf, rf.st)):
+            nlp = NL.Nlp(rr_.ocp)
+            w = NL.generic(nlp.nx, 0, 0, lo=0.2, hi=1.2)
+            vals = []
+            for rr in (1, 3, 5):
+                t_, v_ = st.sample(sym, grid="integrator", refine=rr)
+                F = ca.Function("f", [nlp.x, nlp.p], [t_, v_], {"allow_free": True})
+                if F.has_free():
+                    fr_ = F.free_mx(); F = ca.Function("f", [nlp.x, nlp.p] + fr_, [t_, v_])
+                    o = F(w, nlp.p0, *[nlp.opti.debug.value(q_, nlp.opti.initial()) for q_ in fr_])
+                else:
+                    o = F(w, nlp.p0)
+                vals.append([np.array(o[0]).reshape(-1), np.array(o[1])])
+            smp = st.sampler(sym)
+            gist = np.concatenate([w, nlp.p0])
+            tq = vals[1][0][::2]
+            vals.append([tq, np.array([np.array(smp(gist, float(t))).reshape(-1) for t in tq]).T])
+            outs.append(vals)
+        for (ta, va), (tb, vb), name in zip(outs[0], outs[1], ("refine=1", "refine=3", "refine=5", "sampler")):
+            if ta.shape != tb.shape or not NL.close(ta, tb, 1e-10):
+                vios.append(dict(sig="stale:refined-times", tags=tags + [name], detail="%s after set_T/set_t0: time stamps differ from a fresh Ocp" % name)); break
+            if va.shape != vb.shape or not NL.close(va, vb, 1e-8):
+                vios.append(dict(sig="stale:refined-values", tags=tags + [name], detail="%s after set_T/set_t0: values differ from a fresh Ocp by %g" % (name, np.max(np.abs(va - vb))))); break
+    except Exception as e:
+        from .. import core as core_
+        fr = core_.rockit_frame(sys.exc_info()[2])
+        if fr is None and not isinstance(e, (RuntimeError, AssertionError)):
+            raise
+        vios.append(dict(sig="exception:hist:%s" % (fr or type(e).__name__), tags=tags, detail="%s: %s" % (type(e).__name__, str(e)[:200])))
+    return dict(violations=vios, evaluations=8, traces=2, transitions=4, outcome=explore.sha([_trans.compact(d), [v["sig"] for v in vios]]), nontrivial=True, sample=dict(d=_trans.compact(d), hist=True))
+
+
 def run_case(case):
+    if case.get("kind") == "hist":
+        return run_hist(case)
     import casadi as ca, sys
     d = case["d"]
     tags = _trans.tags_of(d) + ["rhs=%s" % d["rhs"]]
@@ -255,6 +315,6 @@ def convergence_cases():
 
 def describe(tier):
     return dict(
-        rule="deviation-bounded enumeration over method/intg/degree(1..5)/scheme/N/M/grid/rhs/state/horizon/per-interval parameter plus every scheme x M x grid x {nonlinear time-dependent, degree-1, degree-2, degree-d solution} table; at two dynamically feasible decision vectors (min-norm Newton on the real equality rows): thinning (refine r -> integrator -> control, times and values, r=1..7), equal subdivision of every step, the 8 values of refine=7 on one polynomial of the scheme's degree incl. the step's end state, other refinements on the same polynomial, initial slope = rhs (explicit schemes) / through the helper states with slope = rhs at every collocation time (collocation), exactness on polynomial solutions, sampler(gist,t) = that polynomial on a lattice of query times (grid times, midpoints, irrational offsets, both ends)",
+        rule="deviation-bounded enumeration over method/intg/degree(1..5)/scheme/N/M/grid/rhs/state/horizon/per-interval parameter plus every scheme x M x grid x {nonlinear time-dependent, degree-1, degree-2, degree-d solution} table; at two dynamically feasible decision vectors (min-norm Newton on the real equality rows): thinning (refine r -> integrator -> control, times and values, r=1..7), equal subdivision of every step, the 8 values of refine=7 on one polynomial of the scheme's degree incl. the step's end state, other refinements on the same polynomial, initial slope = rhs (explicit schemes) / through the helper states with slope = rhs at every collocation time (collocation), exactness on polynomial solutions, sampler(gist,t) = that polynomial on a lattice of query times (grid times, midpoints, irrational offsets, both ends); histories (refined samples and sampler taken, set_T / set_t0, taken again) = fresh Ocp",
         bound="k<=%d deviations + scheme table" % (3 if tier == "thorough" else 2),
         assumptions=["feasible points are found by Newton on the real rows (non-converged points are skipped and counted)", "rhs values come from the reference interpreter"])
